@@ -418,7 +418,7 @@ def _stage1_compute(case):
             if _excluded(toks):
                 continue
             n_items += 1
-            real = X.real_parse(host, simple, cur, src)
+            real = X._real_parse(host, simple, cur, src)
             if gen is not None:
                 exp_tree, exp_rest = gen, []
             else:
@@ -444,7 +444,7 @@ def _stage1_compute(case):
         for src in (case.get('malformed') or ()):
             for simple, cur in VARIANTS:
                 n_items += 1
-                real = X.real_parse(host, simple, cur, src)
+                real = X._real_parse(host, simple, cur, src)
                 if real[0] != 'err' and real[3].strip() == '':
                     bad.append(('accepted, but malformed', src, simple, cur, real[3]))
         return (bad, list(classes.values()), n_items)
@@ -466,7 +466,15 @@ _CMP = {
 }
 
 
+def _stub_of(unit):
+    """`A` and `@[A]@` both denote the symbol A"""
+    if unit[:2] == '@[' and unit[-2:] == ']@':
+        return unit[2:-2]
+    return unit
+
+
 def _leaf_value(unit, stubs, x, ks, oracle_bug):
+    unit = _stub_of(unit)
     if unit in stubs:
         return stubs[unit]
     if unit == 'constant true':
@@ -508,7 +516,7 @@ def _check_matcher_classes(case, classes, stubs, x, ks) -> bool:
             asked = R.ref_leaves(tree)  # seeded oracle error: demands that every operand is evaluated
         if bug == 'value':
             want = not want if len(R.ref_leaves(tree)) > 1 else want
-        asked_stubs = [u for u in asked if u in stubs]
+        asked_stubs = [_stub_of(u) for u in asked if _stub_of(u) in stubs]
         if bool(got) != bool(want) or log != asked_stubs:
             good = False
             _note('value/asking order differs', src, 'got', bool(got), list(log), 'want', bool(want), asked_stubs)
@@ -609,19 +617,26 @@ def _k2_obligations(tier) -> List[Ob]:
             entry='%s.parsers(b).full|simple .parse_from_token_parser' % PARSER_MODULE[host]))
 
     if tier == 'quick':
-        add('integer', (), 4, 300)
+        for f in K2_ALPHABET_M:
+            add('integer', (f,), 5, 300)
         for host in ('line', 'string', 'file', 'files'):
-            add(host, (), 3, 300)
-        add('transformer', (), 4, 300)
+            add(host, (), 4, 300)
+        add('transformer', (), 5, 300)
     else:
         for f in K2_ALPHABET_M:
             for g in K2_ALPHABET_M:
-                add('integer', (f, g), 6, 1200)
-        add('integer', ('A', 'A'), 6, 300, shorter=True)
+                if f != '(':
+                    add('integer', (f, g), 7, 600)
+        add('integer', ('A', 'A'), 7, 300, shorter=True)
+        for g in K2_ALPHABET_M:  # the longest strings where layout matters most: inside parentheses
+            add('integer', ('(', g), 8, 1800)
         for host in ('line', 'string', 'file', 'files'):
-            add(host, (), 4, 600)
+            for f in K2_ALPHABET_M:
+                add(host, (f,), 6, 600)
         for f in K2_ALPHABET_T:
-            add('transformer', (f,), 6, 1200)
+            for g in K2_ALPHABET_T:
+                add('transformer', (f, g), 8, 1200)
+        add('transformer', ('A', 'A'), 8, 300, shorter=True)
     add('integer', ('A', '||', 'B', '&&'), 5, 300, oracle_bug='precedence')
     add('integer', ('A',), 3, 300, oracle_bug='eager')
     add('transformer', ('A',), 3, 300, oracle_bug='right-to-left')
@@ -641,7 +656,7 @@ def _witness_obligations() -> List[Ob]:
             case=dict(family='W', host='integer', strings=strings),
             bound='integer host: the token strings %s (the whole of it lies in region %s)' % (
                 ' ; '.join(' '.join(_tokname(t) for t in ts) for ts in strings), region),
-            timeout=300, real=_real_for('integer'), stubs=(STUB_LEAF, STUB_NOTRACE), outside=(OUT_PRIMS, OUT_TOKENIZER),
+            timeout=330, real=_real_for('integer'), stubs=(STUB_LEAF, STUB_NOTRACE), outside=(OUT_PRIMS, OUT_TOKENIZER),
             entry='parse_integer_matcher.parsers(b).full|simple .parse_from_token_parser'))
     return obs
 
@@ -687,8 +702,8 @@ def _k1_obligations(tier) -> List[Ob]:
     thorough = tier == 'thorough'
 
     # ---- K1: stub leaves
-    add('K1', 'integer', 'n1-2', 'k_bool', dict(leaves=L12, depth=3, wrappers=3 if thorough else 2),
-        dict(nl=4 if thorough else 3, nlkinds=True, ws=True, lead=True), 600, stubs=M)
+    add('K1', 'integer', 'n1-2', 'k_bool', dict(leaves=L12 + [('@[A]@', 'B')], depth=3, wrappers=3 if thorough else 2),
+        dict(nl=4 if thorough else 3, nlkinds=True, ws=True, lead=True), 1200 if thorough else 600, nparts=4 if thorough else 1, stubs=M)
     if not thorough:
         add('K1', 'integer', 'n3:w1', 'k_bool', dict(leaves=L3, depth=3, wrappers=1), full_layout, 600, nparts=2, stubs=M)
         add('K1', 'integer', 'n3:w2', 'k_bool', dict(leaves=L3, depth=3, wrappers=2), dict(nl=1), 600, nparts=2, stubs=M)
@@ -698,7 +713,7 @@ def _k1_obligations(tier) -> List[Ob]:
         add('K1', 'integer', 'n3:w2', 'k_bool', dict(leaves=L3, depth=3, wrappers=2),
             dict(nl=3, nlkinds=True, ws=True, lead=True), 3000, nparts=12, stubs=M)
         add('K1', 'integer', 'n4:w1', 'k_bool', dict(leaves=L4, depth=3, wrappers=1), dict(nl=2, lead=True), 3000, nparts=8, stubs=M)
-        add('K1', 'integer', 'n4:w2', 'k_bool', dict(leaves=L4, depth=3, wrappers=2), dict(nl=1), 3000, nparts=16, stubs=M)
+        add('K1', 'integer', 'n4:w2', 'k_bool', dict(leaves=L4, depth=3, wrappers=2), dict(nl=2), 3000, nparts=24, stubs=M)
         for host in ('line', 'string', 'file', 'files'):
             add('K1', host, 'n1-3', 'k_bool', dict(leaves=L12 + L3, depth=3, wrappers=2), dict(nl=2, ws=True, lead=True), 3000,
                 nparts=4, stubs=M)
@@ -710,7 +725,7 @@ def _k1_obligations(tier) -> List[Ob]:
     sets2 = [('== K0', '!= K1'), ('< K0', '<= K1'), ('> K0', '>= K1'), ('constant true', '== K0'), ('A', 'constant false')]
     sets3 = [('== K0', '> K1', '<= K2'), ('!= K0', 'A', '< K1'), ('constant true', '>= K0', 'B')]
     add('K1c', 'integer', 'n2', 'k_int', dict(leaves=sets2, depth=3, wrappers=2), dict(nl=2 if thorough else 1, lead=True),
-        1200, extra_real=REAL_INT, stubs=C)
+        1200, extra_real=REAL_INT, stubs=C, nparts=4)
     for i, ls in enumerate(sets3 if thorough else sets3[:2]):
         add('K1c', 'integer', 'n3:%d' % i, 'k_int', dict(leaves=[ls], depth=3, wrappers=2 if thorough else 1),
             dict(nl=1), 3000 if thorough else 1200, extra_real=REAL_INT, stubs=C, nparts=4 if thorough else 1)
@@ -721,17 +736,17 @@ def _k1_obligations(tier) -> List[Ob]:
     T = (STUB_TLEAF,)
     tt = dict(leaves=L12 + L3 + L4, depth=3, wrappers=2, ops=('|',), wrapper_kinds=('P',))
     add('K1t', 'transformer', 'n1-4', 'k_trans', tt, dict(nl=3 if thorough else 2, nlkinds=True, ws=True, lead=True),
-        3000 if thorough else 1200, nparts=4 if thorough else 1, stubs=T)
+        3000 if thorough else 1200, nparts=4 if thorough else 2, stubs=T)
     add('K1t', 'transformer', 'seeded:right-to-left', 'k_trans', dict(leaves=L12, depth=2, wrappers=1, ops=('|',), wrapper_kinds=('P',)),
         dict(nl=0), 300, stubs=T, oracle_bug='right-to-left')
 
     # ---- K3: line-num INTEGER-MATCHER (simple context) inside line-matcher expressions
     for i, cmp_ in enumerate([('== K0', '> K1'), ('<= K0', '!= K1')] if thorough else [('== K0', '> K1')]):
         add('K3', 'line', 'line-num:%d' % i, 'k_int', None, dict(nl=2 if thorough else 1, lead=True), 3000 if thorough else 1200,
-            nparts=4 if thorough else 1, extra_real=REAL_INT + REAL_LINE_NUM, stubs=C, cmp=cmp_,
+            nparts=4 if thorough else 2, extra_real=REAL_INT + REAL_LINE_NUM, stubs=C, cmp=cmp_,
             malformed=tuple(m.format(*cmp_) for m in K3_MALFORMED))
     add('K3', 'line', 'seeded:lt-for-le', 'k_int', None, dict(nl=0), 300, extra_real=REAL_INT + REAL_LINE_NUM, stubs=C,
-        cmp=('<= K0', '< K1'), oracle_bug='lt-for-le')
+        cmp=('<= K0', '< K1'), oracle_bug='lt-for-le', part=(0, 8))
     return obs
 
 
@@ -787,26 +802,32 @@ def selftest(tier: str) -> int:
                 raise AssertionError('ref_parse (transformer) does not invert tree_tokens on %r: %r' % (toks, r))
             n += 1
     # (3) fingerprints: equal for readings that are the same object state, different otherwise
+    #     (validates the fingerprint function, not the parser: a reading that the parser under test rejects is skipped)
     def fp(host, src):
         r = X._real_parse(host, False, False, src)
-        return X.fingerprint(r[1], X.OPAQUE)
+        return X.fingerprint(r[1], X.OPAQUE) if r[0] == 'ok' and r[3].strip() == '' else None
+
+    def same(a, b, expected: bool, what):
+        if a is not None and b is not None and (a == b) != expected:
+            raise AssertionError('fingerprint: %s' % (what,))
 
     for host in X.MATCHER_HOSTS:
-        if fp(host, 'A && B') != fp(host, '(  A &&\n B )'):
-            raise AssertionError('fingerprint differs for equal readings (%s)' % host)
+        same(fp(host, 'A && B'), fp(host, '(  A &&\n B )'), True, host)
         for other in ('A || B', 'B && A', 'A && ! B', 'A && B && A', 'A'):
-            if fp(host, 'A && B') == fp(host, other):
-                raise AssertionError('fingerprint equal for different readings (%s, %s)' % (host, other))
+            same(fp(host, 'A && B'), fp(host, other), False, (host, other))
         n += 6
-    if fp('transformer', 'A | B') == fp('transformer', 'B | A') or fp('transformer', 'A | B') != fp('transformer', '( A\n| B )'):
-        raise AssertionError('fingerprint (transformer)')
-    if fp('integer', '== 1 && A') == fp('integer', '== 2 && A') or fp('integer', '== 1 && A') == fp('integer', '!= 1 && A'):
-        raise AssertionError('fingerprint (comparison)')
+    same(fp('transformer', 'A | B'), fp('transformer', 'B | A'), False, 'transformer')
+    same(fp('transformer', 'A | B'), fp('transformer', '( A |\n B )'), True, 'transformer')
+    same(fp('integer', '== 1 && A'), fp('integer', '== 2 && A'), False, 'comparison operand')
+    same(fp('integer', '== 1 && A'), fp('integer', '!= 1 && A'), False, 'comparison operator')
     n += 4
     # (4) table-backed stub leaves behave as leaves with fixed verdicts
     for host in X.MATCHER_HOSTS:
         for src in ('A && B || ! C', '! ( A || B ) && C', 'A || B && C'):
-            sdv = X._real_parse(host, False, False, src)[1]
+            r = X._real_parse(host, False, False, src)
+            if r[0] != 'ok':
+                continue
+            sdv = r[1]
             for vals in itertools.product((False, True), repeat=3):
                 log = []
                 m1 = X.matcher_primitive(sdv, X.matcher_symbols(host, ('A', 'B', 'C'), vals, log))
